@@ -306,6 +306,24 @@ func c11(r *hx.Run) {
 			{"create+update+recover", []fx.Placed{cp, {Op: mk("U", operation.TypeUpdate, ureq), Time: T, Num: 1, Published: true}, {Op: mk("R", operation.TypeRecover, rreq), Time: T + 1, Num: 0, Published: true}}, rdoc, commits["u2"], commits["r1"], false},
 			{"create+deactivate", []fx.Placed{cp, {Op: mk("D", operation.TypeDeactivate, dreq), Time: T, Num: 1, Published: true}}, doc.Doc{}, "", "", true},
 		}
+		// an update built for the key the recover commits to, anchored after the recover in the same transaction time, with
+		// transaction numbers that are not monotone across times (the create's number is the largest)
+		if rv2, e := commitment.GetRevealValue(jwks["u2"], c.code); e == nil {
+			upd2 := []interface{}{fx.AddServicePatch("svc3", "https://example.com/3")}
+			ureq2, e2 := client.NewUpdateRequest(&client.UpdateRequestInfo{DidSuffix: suffix, Patches: toPatches(upd2), UpdateCommitment: commits["u1"],
+				UpdateKey: jwks["u2"], MultihashCode: c.code, Signer: libSigner(keys["u2"], kid), RevealValue: rv2, AnchorFrom: from, AnchorUntil: until})
+			if e2 != nil {
+				fail("builder-error:update-after-recover", e2.Error())
+			} else if _, e3 := ver.Parser.Parse("did:sidetree", ureq2); e3 != nil {
+				fail("built-request-rejected:update-after-recover", e3.Error())
+			} else {
+				after2, _ := doc.ApplyAll(rdoc, upd2)
+				cpHigh := cp
+				cpHigh.Num = 5
+				scs = append(scs, scenario{"create+recover+update-same-time", []fx.Placed{cpHigh, {Op: mk("R", operation.TypeRecover, rreq), Time: T, Num: 1, Published: true},
+					{Op: mk("U2", operation.TypeUpdate, ureq2), Time: T, Num: 3, Published: true}}, after2, commits["u1"], commits["r1"], false})
+			}
+		}
 		for _, sc := range scs {
 			if c.window >= 3 && sc.name == "create+update+recover" {
 				continue // its recover is anchored one second later, outside a window that ends at T
@@ -325,6 +343,9 @@ func c11(r *hx.Run) {
 			}
 			wantOrigin := origins[c.origin]
 			if strings.HasSuffix(sc.name, "recover") {
+				wantOrigin = rorigin
+			}
+			if strings.HasPrefix(sc.name, "create+recover+update") {
 				wantOrigin = rorigin
 			}
 			if !sc.deact && !jsonEq(rm.AnchorOrigin, wantOrigin) {
